@@ -79,12 +79,12 @@ def sensitivity(ids):
         items.append((name, p, name.split("-")[0].upper()))
     if ids:
         items = [it for it in items if it[0] in ids]
-    st = subprocess.run(["git", "-C", "/repo", "status", "--porcelain", "--untracked-files=no"], stdout=subprocess.PIPE, text=True).stdout.strip()
+    st = subprocess.run(["git", "-C", B.REPO, "status", "--porcelain", "--untracked-files=no"], stdout=subprocess.PIPE, text=True).stdout.strip()
     if st:
-        print("refusing: /repo has uncommitted changes"); return 2
+        print("refusing: %s has uncommitted changes" % B.REPO); return 2
     missed = 0
     for name, patch, prop in items:
-        r = subprocess.run(["git", "-C", "/repo", "apply", patch])
+        r = subprocess.run(["git", "-C", B.REPO, "apply", patch])
         if r.returncode:
             print("%-28s patch does not apply" % name); missed += 1; continue
         try:
@@ -95,7 +95,7 @@ def sensitivity(ids):
             if p.returncode != 1:
                 missed += 1
         finally:
-            subprocess.run(["git", "-C", "/repo", "checkout", "--", "."])
+            subprocess.run(["git", "-C", B.REPO, "checkout", "--", "."])
             for f in glob.glob(os.path.join(VERIF, "replays", "C??-*.json")):
                 os.remove(f)
     print("missed: %d of %d" % (missed, len(items)))
